@@ -111,7 +111,7 @@ def signatures(param_lists):
 
 
 FULL_SEQS = ((0, "after"), (1, "after"), (2, "after"), (1, "before"))
-QUICK_SEQS = ((1, "after"), (2, "after"), (1, "before"))
+QUICK_SEQS = ((2, "after"), (1, "before"))
 
 
 def calls_for(params, max_pos=5, max_kw=4, forms=("expr", "call0", "callx", "kwcb"),
